@@ -639,7 +639,7 @@ class ModelLoader(object):
 
     def p_phrased_association_end(self, p):
         '''association_end : cardinality identifier LPAREN identifier_sequence RPAREN PHRASE STRING'''
-        p[0] = (p[2], p[1], p[4], p[7][1:-1])
+        p[0] = (p[2], p[1], p[4], p[7][1:-1].replace("''", "'"))
 
     def p_cardinality_1(self, p):
         '''cardinality : NUMBER'''
